@@ -160,6 +160,77 @@ theorem iterate_conv3 (F : U → Except Err (Y × U)) (c : Nat) (ul u₁ u₂ : 
 
 end Iterate
 
+/-! ### scaling of all signals -/
+
+section Scale
+
+/-- the loop `iterate` commutes with an injective rescaling of the subsystem inputs (the exit test
+`ulist == new_ulist` compares the signals exactly, so it cannot depend on their level). -/
+theorem iterate_scale {U Y : Type*} [DecidableEq U] (F F' : U → Except Err (Y × U))
+    (sU : U → U) (sY : Y → Y) (hinj : Function.Injective sU)
+    (hF : ∀ ul, F' (sU ul) = (F ul).map (Prod.map sY sU)) :
+    ∀ (k : Nat) (ul : U), iterate F' k (sU ul) = (iterate F k ul).map (Prod.map sU sY) := by
+  intro k
+  induction k with
+  | zero => intro ul; rfl
+  | succ k ih =>
+    intro ul
+    simp only [iterate, hF ul]
+    cases hr : F ul with
+    | error e => rfl
+    | ok r =>
+      simp only [Except.map, Prod.map]
+      by_cases h : ul = r.2
+      · simp [h]
+      · have h' : sU ul ≠ sU r.2 := fun e => h (hinj e)
+        simp only [h, h', if_false]
+        exact ih r.2
+
+theorem smul_injective_fun {α : Type*} (c : K) (hc : c ≠ 0) :
+    Function.Injective (fun v : α → K => c • v) := by
+  intro a b h
+  funext i
+  have := congrFun h i
+  simpa [hc] using this
+
+variable [Fintype ι] [Fintype ι₁] [Fintype ι₂] [Fintype o₁] [Fintype o₂]
+
+theorem step2_smul (G₁ : IOSys σ₁ ι₁ o₁ K) (G₂ : IOSys σ₂ ι₂ o₂ K) (h₁ : Homog G₁) (h₂ : Homog G₂)
+    (Cm : Matrix (ι₁ ⊕ ι₂) (o₁ ⊕ o₂) K) (Im : Matrix (ι₁ ⊕ ι₂) ι K) (c : K) (hc : c ≠ 0)
+    (t : K) (x : σ₁ ⊕ σ₂ → K) (u : ι → K) (ul : ι₁ ⊕ ι₂ → K) :
+    step2 G₁ G₂ Cm Im t (c • x) (c • u) (c • ul)
+      = (step2 G₁ G₂ Cm Im t x u ul).map (Prod.map (c • ·) (c • ·)) := by
+  have e1 : (c • x) ∘ Sum.inl = c • (x ∘ Sum.inl) := rfl
+  have e2 : (c • x) ∘ Sum.inr = c • (x ∘ Sum.inr) := rfl
+  have e3 : (c • ul) ∘ Sum.inl = c • (ul ∘ Sum.inl) := rfl
+  have e4 : (c • ul) ∘ Sum.inr = c • (ul ∘ Sum.inr) := rfl
+  simp only [step2, e1, e2, e3, e4, (h₁ c hc t _ _).2, (h₂ c hc t _ _).2]
+  cases G₁.h t (x ∘ Sum.inl) (ul ∘ Sum.inl) with
+  | error e => rfl
+  | ok y₁ =>
+    cases G₂.h t (x ∘ Sum.inr) (ul ∘ Sum.inr) with
+    | error e => rfl
+    | ok y₂ =>
+      simp only [Except.map, Prod.map, Except.ok.injEq, Prod.mk.injEq]
+      have e5 : Sum.elim (c • y₁) (c • y₂) = c • Sum.elim y₁ y₂ := by
+        funext i; cases i <;> rfl
+      refine ⟨e5, ?_⟩
+      rw [e5, Matrix.mulVec_smul, Matrix.mulVec_smul, smul_add]
+
+theorem step1_smul (G : IOSys σ₁ ι₁ o₁ K) (hG : Homog G)
+    (Cm : Matrix ι₁ o₁ K) (Im : Matrix ι₁ ι K) (c : K) (hc : c ≠ 0)
+    (t : K) (x : σ₁ → K) (u : ι → K) (ul : ι₁ → K) :
+    step1 G Cm Im t (c • x) (c • u) (c • ul)
+      = (step1 G Cm Im t x u ul).map (Prod.map (c • ·) (c • ·)) := by
+  simp only [step1, (hG c hc t _ _).2]
+  cases G.h t x ul with
+  | error e => rfl
+  | ok y =>
+    simp only [Except.map, Prod.map, Except.ok.injEq, Prod.mk.injEq, true_and]
+    rw [Matrix.mulVec_smul, Matrix.mulVec_smul, smul_add]
+
+end Scale
+
 end IOSys
 
 end CtrlVerif
